@@ -94,7 +94,13 @@ def run_history(uni, hist, sizes, dbpath, stats, bad):
                 bad.append(('unknown-block', "the store returns a block that was never written", hist, sizes))
                 continue
             if b.previous_block_hash != b'\x00' * 32 and b.previous_block_hash not in seen_ids[:-1]:
-                bad.append(('child-before-parent', "block %s is returned before its parent" % (n.path,), hist, sizes))
+                par = exp.get(b.previous_block_hash)
+                if par is not None and all(tx_first_block[enc.txid(t)] != par.bid for t in par.block.transactions):
+                    # the parent is one of the blocks the recorded defect makes vanish (all its transactions are shared
+                    # with earlier-written blocks); reported below under that key
+                    affected = True
+                else:
+                    bad.append(('child-before-parent', "block %s is returned before its parent" % (n.path,), hist, sizes))
             stats['blocks_compared'] += 1
             if ser != n.ser:
                 # is this exactly the recorded defect? (transactions already stored under an earlier-written block are lost)
